@@ -597,6 +597,50 @@ func Run(r *mc.Run) {
 			return !r.Expired()
 		})
 
+	// ---- scenario 1g: SEQUENCES of names that other ar dialects treat specially (GNU/SysV name table "//" and
+	// references "/<n>", symbol table "/", BSD "#1/<len>" names stored in the data). The statement knows none of them:
+	// every member comes back under its RECORDED name column (padding and one trailing '/' removed: "//" -> "/",
+	// "/" -> "", "/0" -> "/0", "/0/" -> "/0"; the pinned fixture long.a asserts the first two), recorded size, its bytes. ----
+	sp := func(name string, data string) gen.ArmMember {
+		return gen.ArmMember{Name: name, TS: "1", UID: "2", GID: "3", Mode: "644", Data: []byte(data)}
+	}
+	table := "control.tar.zst.partial/\nother-long-name.o/\n"
+	special := []gen.ArmMember{
+		sp("//", table), sp("//", ""), sp("/", "\x00\x00\x00\x01\x00\x00\x00\x52sym\x00"), sp("/", ""),
+		sp("/0", "first"), sp("/25", "second"), sp("/999", "far"), sp("/0/", "slash"), sp("/x", "text"), sp("/-1", "neg"),
+		sp("#1/20", "twenty-byte-name.o\x00\x00payload"), sp("#1/0", "payload"), sp("#1/99", "short"),
+		sp("a", "plain"), sp("b.o/", "obj"),
+	}
+	spArchs := archives(len(special), 3)[1:]
+	r.Scenario("special-name-sequences", map[string]interface{}{"member_shapes": len(special), "members": "1..3", "archives": len(spArchs), "readerat_conventions": 2, "schedules": 3,
+		"names": []string{"// (table, empty)", "/ (symbols, empty)", "/0", "/25", "/999", "/0/", "/x", "/-1", "#1/20", "#1/0", "#1/99", "a", "b.o/"}},
+		(len(spArchs)+chunk-1)/chunk, func(shard int, st *mc.Stats) bool {
+			lim := limiter{}
+			for ai := shard * chunk; ai < (shard+1)*chunk && ai < len(spArchs); ai++ {
+				ms := build(special, spArchs[ai])
+				b := gen.ArmBuild(ms)
+				exp := expectAll(ms)
+				for conv := 0; conv < 2; conv++ {
+					for _, ops := range schedules(len(ms)) {
+						_, f := runOps(b, exp, conv, ops)
+						st.Evals++
+						st.Traces++
+						st.Transitions += int64(len(ops))
+						if f != nil {
+							st.Class("violation:" + f.clause)
+							if lim.ok(f.clause + fmt.Sprint(conv)) {
+								record(st, checkSeq("special-name-sequences", In{Members: ms, Conv: conv, Ops: ops}))
+							}
+						} else {
+							st.Class("ok")
+						}
+					}
+				}
+				st.Nontrivial++
+			}
+			return !r.Expired()
+		})
+
 	// ---- scenario 1f: archives LONGER than any window a reader might keep (4 KiB, 8 KiB, 64 KiB): many members, so
 	// that 60-byte headers start at every (even) residue modulo those sizes and straddle their multiples ----
 	largeArchives(r)
